@@ -35,6 +35,8 @@ FB = 'pcbasic/basic/display/framebuffer.py'
 
 
 def check(ctx, rep):
+    from . import c30 as _c30, _share as _sh
+    _sh.share(ctx, rep, _c30, ('clip.range-clamped',), 'a filled box, GET and PUT address their rectangle through the viewport slice: the exclusive stop is clamped to max+1, so the last column and row are part of it')
     from ..optargs import check as _optargs
     _optargs(ctx, rep, [G], 6)
     dl = ctx.fn(G + ':Graphics._draw_line')
